@@ -18,7 +18,7 @@ CONSTANTS Vals, MaxStack, MaxOps, OpKinds, Made0,
           Bug      \* "none" | "setattr" | "delattr" | "release" | "push" | "pop" |
                    \* "release_stack" | "proxy_early" | "spawn_fresh" | "release_all" | "falsy_unbound" |
                    \* "iop_rebind" | "mgr_iter" | "cleanup_first" | "mw_forget" | "mw_counter" |
-                   \* "cv_lookup"
+                   \* "cv_lookup" | "set_skip_equal"
 
 VARIABLES st,     \* contract state (Locals.tla)
           im,     \* implementation state
@@ -128,7 +128,10 @@ IRet(I, o) ==
 
 INext(I, alive, o) ==
   LET c == o.ctx d == DictOf(I, c) l == ListOf(I, c) IN
-  CASE o.op = "set"  -> SetDict(I, alive, c, [d EXCEPT ![o.n] = o.b], "setattr")
+  \* Bug "set_skip_equal": `if name in values and values[name] == value: return` -- binding an object
+  \* that is equal to, but not the same as, the current (e.g. inherited) one is dropped
+  CASE o.op = "set"  -> IF Bug = "set_skip_equal" /\ d[o.n] # NoBox /\ ValEq(I.cont, d[o.n], o.b) THEN I
+                        ELSE SetDict(I, alive, c, [d EXCEPT ![o.n] = o.b], "setattr")
     [] o.op = "del"  -> IF d[o.n] = NoBox THEN I ELSE SetDict(I, alive, c, [d EXCEPT ![o.n] = NoBox], "delattr")
     [] o.op \in {"release", "release_dunder"} ->
          IF Bug = "release_all" THEN [I EXCEPT !.cvd = [x \in Ctxs |-> NoRef]]
@@ -229,6 +232,9 @@ ProxiesAgree    == /\ im.pmade = st.made
                    /\ \A k \in st.made : im.pproxy[k]
                    /\ \A c \in st.alive : \A k \in st.made : Resolve(im, c, k) = Bound(st, c, k)
 ContentsAgree   == im.cont = st.cont
+\* isolation of bindings by identity: what a context reads is the very object it (or, before it
+\* existed, its parent) bound -- never another context's equal one
+Isolation       == ViewEqualsIdeal /\ ContentsAgree
 ReturnsAgree    == ~bad
 \* "releasing ... does affect the releasing context": after a release path (cleanup, closing the
 \* middleware's iterable, release_local, __release_local__, pop to empty) nothing of what it releases
